@@ -10,14 +10,17 @@ CLAIMED = {
              "lengths, bounds and overshoots; every sampler step evaluates the posterior only inside the limits in force and stores "
              "only such points; the finite-difference gradient of HamiltonianChain takes non-zero steps that stay inside the bounds; "
              "the same contracts are evaluated as run-time postconditions on a bounded adversarial input family (boxes far from zero, "
-             "tiny, all-negative; huge proposals).",
+             "tiny, all-negative; huge proposals). The fold-with-parity map reflect_momenta and its use after every drift of the real "
+             "bounded_leapfrog loop (C07 contracts) are obligations of this property too; bounded: trajectories drifting up to 12.5 box "
+             "widths per step against a mirror-by-mirror reference (position folded, momentum reversed for odd fold counts).",
         note="floats idealised as reals (float-level behaviour only in the bounded layer); numpy divmod/% contracts assumed; "
              "pyvc VC generator trusted (cross-checked against CPython every run)",
         ref="3/C04"),
     "C05": dict(
         text="Proof: for every data length and parameter count, the value returned by the real _log_likelihood code equals the "
              "sum of the named log-densities written in the contract, the gradient equals both the chain-rule formula and "
-             "the symbolic derivative of the returned value term, and cost/cost_gradient are exact negatives. "
+             "the symbolic derivative of the returned value term, and cost/cost_gradient are exact negatives; the object is the likelihood of "
+             "the data given to the constructor (the caller changing its y / uncertainty arrays in place afterwards changes nothing). "
              "Bounded run-time evaluation of the same contracts stands in for float behaviour.",
         note="log/exp uninterpreted with the axiom instances listed in the evidence; reductions via linearity/congruence of "
              "finite sums; normalisation of the named densities (integrate to one) is a textbook fact, assumed; floats as reals",
@@ -192,7 +195,9 @@ CLAIMED["C11"] = dict(
          "matrix calculus; loo_predictions / loo_likelihood equal the R&W (5.10-5.12) expressions and every entry of "
          "loo_likelihood_gradient is the symbolic derivative of the LOO sum (loop invariants per hyper-parameter). Bounded: "
          "scores against scipy's multivariate normal and explicit refits, finite differences, optimiser selection within bounds and "
-         "no worse than the centre start.",
+         "no worse than the centre start for default and explicit numbers of starts. The kernel and mean contracts of C10 "
+         "(covariance_and_gradients / mean_and_gradients return K, dK/dtheta, m, dm/dtheta) over which the gradients are proved "
+         "modularly are discharged under this property as well.",
     note=MATRIX_NOTE + "; the identity of (5.12) with an actual refit is the block-inverse lemma (assumed, refit-compared in the bounded "
          "layer); automatic hyper-parameter selection (multi-start L-BFGS / differential evolution) is bounded only",
     ref="3/C11")
@@ -212,7 +217,8 @@ CLAIMED["C17"] = dict(
          "marginal_likelihood (and the value variant) is -1/2 r^T J^-1 r - 1/2 logdet J with J = A K A^T + S, r = y - A m; every "
          "gradient entry is the matrix-calculus derivative of that expression; the constructor stores diag(y_err^2), its inverse, the "
          "identity and the [mean, covariance] hyper-parameter layout. Bounded: tall/wide/rank-deficient models against dense "
-         "conjugate formulas and finite differences.",
+         "conjugate formulas and finite differences, plain and change-point priors. The kernel and mean contracts of C10 over which "
+         "the evidence gradient is proved modularly are discharged under this property as well.",
     note=MATRIX_NOTE + "; equivalence of the posterior equation with the textbook Woodbury form, symmetry/PSD and 'no larger than the prior' "
          "are bounded only",
     ref="3/C17")
@@ -241,11 +247,12 @@ CLAIMED["C12"] = dict(
          "it (outside values to the end regions); __call__ returns norm * sum over the slice of exp(-((x-s_j) q)^2) and cdf returns "
          "offset + (1/2N) sum (1 + erf((x-s_j) q)) for every evaluation point (loop invariant over the groups of a partition); composition "
          "lemma: every sample left out is >= 3.5 h from the point on the assumed side, i.e. the truncation bounds phi(3.5)/h and Phi(-3.5). "
+         "Without a bandwidth the constructor sets h = 1.06 sd(sample) / N^(1/5) (population sd) and derives every constant from it. "
          "Bounded: brute-force KDE/CDF comparison on eight sample families incl. Cauchy and far outliers, six bandwidth modes, scale/shift "
          "equivariance, order independence, exhaustive unique_index_groups for arrays <= 6.",
     note="assumed: numpy sort / searchsorted(side=left) / linspace contracts, unique_index_groups partitions the positions by value (bounded "
-         "exhaustive check), 2^t increasing with 2^(log2 u) = u, Gaussian tail monotone; bandwidth selection rules (rule of thumb, "
-         "cross-validation) and scalar-vs-array return are bounded only; floats as reals",
+         "exhaustive check), 2^t increasing with 2^(log2 u) = u, Gaussian tail monotone; the cross-validation bandwidth rule, scale covariance of the chosen "
+         "bandwidth and scalar-vs-array return are bounded only; floats as reals",
     ref="3/C12")
 
 PENDING_REASON = "contracts for this property are not built yet in this revision (see DESIGN.md section 7); not claimed"
